@@ -14,3 +14,54 @@ package xfer
 //@   property C20
 //@   modifies nothing
 //@   ensures[fresh-empty] fresh(result) && len(result.filters) == 0
+
+// ---- C12: filter pipes invert exactly ---------------------------------------
+// packv(f, v): the content filter f's OnPack makes of content v. Every filter is
+// assumed to be an inverse pair (proved for md5 below, library assumption for gzip).
+//@ spec fn packv(f iface, v int) int
+//@ spec fn unpackv(f iface, v int) int
+//@ spec fn unpackOK(f iface, v int) bool
+//@ axiom[filter-inverse] forall f iface, y int :: {packv(f, y)} unpackv(f, packv(f, y)) == y && unpackOK(f, packv(f, y))
+
+// packFrom(F, o, i, n, d): filters F[o+i .. o+n-1] applied to d, innermost (last) first
+//@ spec fn packFrom(F ifacerow, o int, i int, n int, d int) int
+//@ axiom[packFrom-def] forall F ifacerow, o int, i int, n int, d int :: {packFrom(F, o, i, n, d)} packFrom(F, o, i, n, d) == (i >= n ? d : packv(F[o + i], packFrom(F, o, i + 1, n, d)))
+
+//@ iface xfer.XferFilter.OnPack
+//@   params self src
+//@   flags libframe
+//@   ensures[packs] result.1 == nil ==> view(result.0) == packv(self, old(view(src)))
+//@ iface xfer.XferFilter.OnUnpack
+//@   params self src
+//@   flags libframe
+//@   ensures[accepts-own-output] unpackOK(self, old(view(src))) ==> result.1 == nil
+//@   ensures[unpacks] result.1 == nil ==> view(result.0) == unpackv(self, old(view(src)))
+
+//@ func (*XferPipe).OnPack
+//@   property C12
+//@   flags seq libframe
+//@   ensures[last-to-first] result.1 == nil ==> view(result.0) == packFrom(old(rowof(x.filters)), old(off(x.filters)), 0, old(len(x.filters)), old(view(data)))
+//@   loop 0: invariant[chain] -1 <= i && i < len(x.filters) && err == nil && view(data) == packFrom(rowof(x.filters), off(x.filters), i + 1, len(x.filters), old(view(data)))
+
+// the universally quantified original payload
+//@ ghost global payload int
+//@ func (*XferPipe).OnUnpack
+//@   property C12
+//@   flags seq libframe
+//@   let packed = old(view(data)) == packFrom(old(rowof(x.filters)), old(off(x.filters)), 0, old(len(x.filters)), ghost.payload)
+//@   ensures[inverse] packed ==> result.1 == nil && view(result.0) == ghost.payload
+//@   loop 0: invariant[bounds] 0 <= i && i <= count && count == len(x.filters)
+//@   loop 0: invariant[chain] packed ==> err == nil && view(data) == packFrom(rowof(x.filters), off(x.filters), i, len(x.filters), ghost.payload)
+
+// ---- C12: a pipe naming an unregistered filter is refused --------------------
+// appendFailed is sticky: once an Append reported an error it stays set, so a
+// caller that swallows the error cannot return success without it showing.
+//@ constglobal ErrXferPipeTooLong @C12
+//@ ghost global appendFailed bool
+//@ func (*XferPipe).Append
+//@   property C12
+//@   modifies x.filters, allelems(type(XferFilter))
+//@   ghostset ghost.appendFailed = old(ghost.appendFailed) || result != nil
+//@   ensures[too-long-refused] result == nil ==> len(x.filters) <= 255
+//@   ensures[all-or-error] result == nil ==> len(x.filters) == old(len(x.filters)) + len(filterID)
+//@   loop 0: invariant[count] $idx >= -1 && $idx + 1 <= len(filterID) && len(x.filters) == old(len(x.filters)) + $idx + 1
